@@ -155,9 +155,9 @@ def run(pid, tier, seed, rng, t0):
         # specification expects after it) driven into a real Hexital and compared after every call
         import replay_engine
 
-        behs, r = replay_engine.behaviours(40 if tier == "quick" else 700, 10, seed % 100000)
+        behs, r = replay_engine.behaviours(12 if tier == "quick" else 160, 16, seed % 100000)
         mc_stats.append({"name": "MC_EngineEmit (simulation, behaviours for replay)", "module": "MC_EngineEmit",
-                         "cfg": "MC_EngineEmit.cfg", "constants": "TF=3, MaxLen=4, MaxOps=2; menu and alphabet of MC_Engine",
+                         "cfg": "MC_EngineEmit.cfg", "constants": "TF=3, MaxLen=8, MaxOps=3, chunks 1..2; 19 kinds in every ordered pair; 6 candle symbols; timeframe none/3/3+fill, lifespans 5 and 9, Heikin-Ashi",
                          "distinct": len(behs), "states": r["states"], "wall": round(r["wall"], 1), "violated": []})
         badb = [(b, m) for b, m in ((b, replay_engine.replay(b)) for b in behs) if m]
         extra["spec_to_code_replayed_behaviours"] = len(behs)
